@@ -137,6 +137,8 @@ def check(ctx):
         "enter_with_parent on a no-op parent, every Span::new call receives a token that cannot be empty, REPORTER_READY is "
         "stored true only after GlobalCollector::start and read un-negated; R5 'no local parent' is a state the stack really returns "
         "to: releasing a scope pops it on every path, and the six local operations act only across span_lines.last_mut() = Some.")
+    ctx.explanation += (" R6 the scope bundle (C10's rules): scopes opened on every path and refused only when the stack is full, released "
+                        "scopes popped with nothing left behind, the stack looked at from its top only and the only per-thread context.")
     ctx.not_decided = "thread count at run time; 'nothing is delivered' for all call sequences beyond reachability."
     # ------------------------------------------------------------------ config D
     D = ctx.facts("D")
@@ -247,6 +249,9 @@ def check(ctx):
     from .. import scopes
     scopes.rule_unregister_always_pops(ctx, E, "R5")
     scopes.rule_inert_without_scope(ctx, E, "R5")
+    # what "the local parent in effect" needs from the scope stack (see props/common.py)
+    from .common import scope_bundle
+    scope_bundle(ctx, ctx.facts("E"), "R6")
 
 
 def rule_not_recording(ctx, E, prov):
